@@ -433,7 +433,18 @@ fn c09(ctx: &Ctx, rep: &mut Report) {
             }
             // ---- Stdfs on the in-domain subset
             // the sandbox root has a real name and a real parent, the virtual "/" has neither
-            if si % 4 == 0 && sa != "/" && in_domain_state(state) && !through_link(state, Some(&sa)) && !through_link(state, Some(&da)) {
+            // (states with links to nothing are taken along too - every fourth of them: a destination position that
+            // holds such a link is neither a file to replace nor free, and nothing may be written through it)
+            let only_dangling = !in_domain_state(state)
+                && state.nodes.values().all(|n| match &n.kind {
+                    NKind::Link { target, .. } => !matches!(state.nodes.get(target), Some(NNode { kind: NKind::Link { .. }, .. })) && !through_link(state, Some(target.as_str())),
+                    _ => true,
+                });
+            let follow_op = matches!(op, Op::CopyB(_, _, _, true));
+            if sa != "/" && ((si % 4 == 0 && in_domain_state(state)) || (si % 4 == 2 && only_dangling && !follow_op)) && !through_link(state, Some(&sa)) && !through_link(state, Some(&da)) {
+                if only_dangling {
+                    rep.count("real_calls_on_states_with_links_to_nothing", 1);
+                }
                 set_case(&format!("rel:{}(stdfs,{}):returns→stalls", op.name(), cls), &format!("{:?} {:?}", hist, op));
                 // every second of these states is put on disk with the sticky bit on its directories and the set-id
                 // bits on its files: a mode is carried over whole, not only its rwx part (the relation compares what
@@ -749,6 +760,22 @@ fn c10_scenario<V: VirtualFileSystem>(v: &V, backend: &str, root: &str, l: &str,
             let sb2 = snapshot();
             if r.is_ok() && sb2.nodes.get(&tabs).map(|n| n.mode) != sb1.nodes.get(&tabs).map(|n| n.mode) {
                 bad(&format!("chmod_b(link,recurse={:?})-leaves-target→target-changed", recurse), format!("{:?}", sb2.nodes.get(&tabs).map(|n| n.mode)));
+            }
+        }
+        // a link is not a directory (link exclusion) - also not for the purpose of holding children: on the in-memory
+        // backend, which resolves no links inside a path, nothing can be created beneath the link's own path, whatever
+        // kind was recorded for it (the real backend's kernel would create inside the target instead)
+        if !backend.contains("stdfs") {
+            let sx0 = snapshot();
+            let below = [format!("{}/x", rl(l)), format!("{}/y", rl(l)), format!("{}/z", rl(l))];
+            let r1 = v.mkfile(&below[0]).is_ok();
+            let r2 = v.write_all(&below[1], b"w").is_ok();
+            let r3 = v.symlink(&below[2], rl(t)).is_ok();
+            let sx1 = snapshot();
+            if let Some(k) = sx1.nodes.keys().find(|k| is_under(k, &rl(l))) {
+                bad("nothing-exists-beneath-a-link's-own-path→created", format!("{} (mkfile ok={}, write_all ok={}, symlink ok={})", k, r1, r2, r3));
+            } else if sx1 != sx0 {
+                bad("creating-beneath-a-link-changes-nothing→changed", format!("mkfile ok={}, write_all ok={}, symlink ok={}", r1, r2, r3));
             }
         }
         // ... and back to exactly the owner the TARGET has: the link's own owner differs from it by now, so there is
